@@ -10,6 +10,9 @@ import (
 	"strconv"
 	"strings"
 	"sync"
+	"time"
+
+	"verif/internal/harness"
 
 	"github.com/cloudspannerecosystem/memefish"
 	"github.com/cloudspannerecosystem/memefish/ast"
@@ -154,7 +157,16 @@ func guarded(f func() ([]ast.Node, error)) (o Outcome) {
 	return
 }
 
+// curCtx is the context of the running property (set by TestProp); it arms the hang watchdog
+// around every entry-point call, so a non-terminating parse ends the shard in seconds
+// (inconclusive for every property except C03, which confirms it in isolation and reports it).
+var curCtx *harness.Ctx
+
 func (e *Entry) Guarded(src string) Outcome {
+	if curCtx != nil {
+		done := curCtx.Guard(&harness.Case{Entry: e.Name, Input: src}, 20*time.Second)
+		defer done()
+	}
 	return guarded(func() ([]ast.Node, error) { return e.Call(src) })
 }
 
